@@ -21,7 +21,7 @@ RULE = ('coverage-guided mutational fuzzing of compile(pattern) and compile(patt
         'of every grammar + one pattern per token kind; mutators = truncate at any offset, delete/duplicate/swap '
         'spans, splice two corpus entries, pump a span up to 6000 times, insert from a hostile alphabet (backslash, '
         'hex runs incl. 110000/0/d800, NUL, U+FFFF, lone surrogates, astral characters, CR/FF/LF, quotes, brackets, '
-        'comment openers, combinators, | @ :: & :-- --).  Non-trivial = an input that raised or that compiled to a '
+        'comment openers, combinators, | @ :: & :-- --).  Deep-nesting law (implementation-relative recursion budget): a pattern nested 20-260 deep whose compile succeeds must compile again in another spelling / with other arguments / after purge.  Non-trivial = an input that raised or that compiled to a '
         'non-empty selector list after at least one mutation; distinct = distinct input strings among those.')
 ASSUMPTIONS = [
     'documented outcomes: a compiled object, SelectorSyntaxError, NotImplementedError only when the pattern (or a custom '
@@ -60,7 +60,64 @@ def plan(tier, seed):
     units = [{'kind': 'fuzz', 'seed': seed * 65537 + i, 'iters': it} for i in range(n)]
     units += [{'kind': 'custom', 'seed': seed * 65537 + 100000 + i, 'iters': 350 if tier == 'quick' else 2500}
               for i in range(16 if tier == 'quick' else 160)]
+    units += [{'kind': 'deep', 'seed': seed * 65537 + 200000 + i, 'iters': 12 if tier == 'quick' else 60}
+              for i in range(16 if tier == 'quick' else 64)]
     return units
+
+
+DEEP_WRAPS = [(':is(', ')'), (':not(', ')'), (':where(', ')'), (':has(', ')'), (':has(> ', ')'), (':nth-child(1 of ', ')'), (':is(a, ', ')'),
+              (':not(:is(', '))'), ('a:nth-last-child(2n+1 of b ', ')'), (':matches(', ')')]
+
+
+def deep_pattern(rng, d):
+    core = rng.choice(['a', '.x', '[b]', ':root', 'a > b', '*'])
+    if rng.random() < .6:
+        op, cl = rng.choice(DEEP_WRAPS)
+        return op * d + core + cl * d
+    pre, post = '', ''
+    for _ in range(d):
+        op, cl = rng.choice(DEEP_WRAPS)
+        pre += op
+        post = cl + post
+    return pre + core + post
+
+
+def deep_unit(sv, rng, iters, res, bump, sigs):
+    """"Nesting depth below the interpreter's recursion budget" taken relative to the implementation: when compile(P)
+    itself succeeds at the current stack depth, the same selector compiled again - in another spelling, with other
+    arguments, after purge(), or simply a second time - is within the budget as well and must not raise anything else."""
+    for _ in range(iters):
+        d = rng.choice([20, 40, 60, 80, 100, 120, 150, 180, 220, 260])
+        p = deep_pattern(rng, d)
+        sv.purge()
+        st, val = monitors.guarded_call(sv.compile, p, budget=10.0)
+        res['evals'] += 1
+        bump('deep_patterns')
+        if st != 'ok':
+            if st == 'raise' and not isinstance(val, (RecursionError, sv.SelectorSyntaxError)):
+                bump('VIOL')
+                res['viol'].append({'what': '%s escaped compile() of a pattern nested %d deep: %s' % (type(val).__name__, d, ascii(p)[:120]),
+                                    'selector': p, 'deep': ['first'], 'class': sig('deep-first', type(val).__name__)})
+            bump('deep_beyond_budget' if st == 'raise' and isinstance(val, RecursionError) else 'deep_other')
+            continue
+        bump('deep_within_budget')
+        sigs.add(sig('deep', p[:40], d))
+        variants = [('again', (p,), {}), ('trailing blank', (p + ' ',), {}), ('leading comment', ('/**/' + p,), {}),
+                    ('custom={}', (p,), {'custom': {}}), ('namespaces={}', (p, {}), {}), ('flags', (p, None, 0x40), {}),
+                    ('after purge', (p,), {'_purge': True}), ('upper-case', (p.replace(':is(', ':IS(').replace(':not(', ':NOT('),), {})]
+        for name, a, kw in rng.sample(variants, 4):
+            if kw.pop('_purge', False):
+                sv.purge()
+            st2, v2 = monitors.guarded_call(sv.compile, *a, budget=10.0, **kw)
+            res['evals'] += 1
+            if st2 == 'ok':
+                bump('deep_second_compile_ok')
+                continue
+            bump('VIOL')
+            if len(res['viol']) < 6:
+                res['viol'].append({'what': 'compile(P) succeeds for P nested %d deep (%s...), compiling it once more (%s) %s' % (
+                    d, ascii(p)[:60], name, ('raises %s [%s]' % (type(v2).__name__, monitors.exc_site(v2))) if st2 == 'raise' else 'exhausts its CPU budget'),
+                    'selector': p, 'deep': [name], 'class': sig('deep', name, type(v2).__name__ if st2 == 'raise' else st2)})
 
 
 class Cov:
@@ -265,7 +322,10 @@ def run_unit(u):
     cov = Cov()
     cov.start()
     try:
-        if u['kind'] == 'fuzz':
+        if u['kind'] == 'deep':
+            deep_unit(sv, rng, u['iters'], res, bump, sigs)
+            pat = 'deep'
+        elif u['kind'] == 'fuzz':
             corpus = seeds(rng)
             for s in corpus:
                 run_one(s, mutated=False)
@@ -303,6 +363,16 @@ def replay(w):
     import warnings
     import soupsieve as sv
     warnings.simplefilter('ignore')
+    if w.get('deep'):
+        sv.purge()
+        st, val = monitors.guarded_call(sv.compile, w['selector'], budget=10.0)
+        if st != 'ok':
+            return None if isinstance(val, (RecursionError, sv.SelectorSyntaxError)) else dict(w, status_now=repr(val))
+        for a, kw in (((w['selector'] + ' ',), {}), ((w['selector'],), {'custom': {}}), ((w['selector'], {}), {})):
+            st2, v2 = monitors.guarded_call(sv.compile, *a, budget=10.0, **kw)
+            if st2 != 'ok':
+                return dict(w, status_now='second compile: %r' % (v2,))
+        return None
     st, val = monitors.guarded_call(sv.compile, w['selector'], custom=w.get('custom'), budget=5.0)
     why = judge(w['selector'], w.get('custom'), st, val)
     if not why:
@@ -316,6 +386,9 @@ def inconclusive(cn, tier):
         out.append('fuzzer did not reach both outcomes often enough: %r' % cn)
     if not cn.get('custom_maps'):
         out.append('custom maps not exercised')
+    if cn.get('deep_within_budget', 0) < 50 or cn.get('deep_second_compile_ok', 0) < 150:
+        out.append('deep-nesting law observed too little: %d patterns within budget, %d second compiles' % (
+            cn.get('deep_within_budget', 0), cn.get('deep_second_compile_ok', 0)))
     if cn.get('corpus_growth', 0) < 50:
         out.append('coverage guidance inactive (corpus growth %d)' % cn.get('corpus_growth', 0))
     return out
